@@ -148,7 +148,8 @@ structure KS where
   pre   : List Node          -- children already processed
   oks   : List Bool          -- … and whether each ran to a successful end
   err   : Bool               -- some child raised (function failure or ReadinessError)
-  out   : Option Val         -- value forwarded to the composite's output by an out-linked child
+  out   : Option Val         -- value the out-linked child forwards to the composite's output (the
+                             --   forwarding happens at once, also when that child fails later on)
   bumps : List (Nat × Nat)   -- (position, old bundle) of children whose neighbours were re-pointed
 
 def KS.init : KS := { pre := [], oks := [], err := false, out := none, bumps := [] }
@@ -262,7 +263,7 @@ def KS.push (st : KS) (old n : Node) (ok : Bool) (err : Bool) : KS :=
   let p := st.pre.length
   let bumped := n.own.gen != old.own.gen && old.kind? == some .macro
   { pre := st.pre ++ [n], oks := st.oks ++ [ok], err := st.err || err,
-    out := if ok && n.own.outLinked then some n.own.out else st.out,
+    out := if n.own.outLinked then some n.own.out else st.out,
     bumps := if bumped then st.bumps ++ [(p, old.own.gen)] else st.bumps }
 
 mutual
